@@ -108,8 +108,8 @@ CHECKS['C12'] = dict(
 CHECKS['C15'] = dict(
    category='other',
    technique='Coq proof on the lexer model (characters of no token are rejected in every state outside strings, with the line counted through any gap and through multi-line strings) and on the evaluator model (undefined variable = error) + exhaustive single corruptions of generated programs on the real compiler with independently computed line numbers + token correspondence including lines',
-   text='Theorems C15_illegal_character, C15_illegal_line (line = start line of the preceding gap + line feeds in it, through block comments, line comments, CR/LF/CRLF), C15_lines_through_gap, C15_lines_through_string, C15_undefined_variable. Correspondence: every generated program (with multi-line plain and interpolated strings, multi-line comments and CRLF in front) is corrupted once per class and position (quick: 3 positions per class and program; thorough: every position): closing brace deleted, truncated inside a block, string left open at end of input, stray closing brace at top level (line checked) and nested, opening brace deleted, declaration colon replaced by a blank (line of the first value token checked), character of no token inserted in a gap (line checked), value replaced by an undefined variable (also against the evaluator model and the reference semantics); the command line must print a diagnostic; raw/filtered token streams with lines model vs real lexer.',
-   note='PARTIAL (category other): unbalanced braces, open strings, missing braces and colons are detected by the LALR parser, which is not modelled; they are decided by the corruption sweep on the real parser. The command line keeps going after a syntax error and also prints the CSS of the remaining rules; the property only asks for the diagnostic there. Trusted: Coq kernel; lexer and evaluator hand models; the line oracle 1 + count of LF before the offending token.',
+   text='Theorems C15_accepted_is_balanced (every token stream the reference parser of the model pipeline accepts has balanced braces: an open block at end of input or a stray closing brace is never compiled), C15_declaration_needs_colon, C15_open_string_rejected, C15_illegal_character, C15_illegal_line (line = start line of the preceding gap + line feeds in it, through block comments, line comments, CR/LF/CRLF), C15_lines_through_gap, C15_lines_through_string, C15_undefined_variable. Correspondence: every generated program (with multi-line plain and interpolated strings, multi-line comments and CRLF in front) is corrupted once per class and position (quick: 3 positions per class and program; thorough: every position): closing brace deleted, truncated inside a block, string left open at end of input, stray closing brace at top level (line checked) and nested, opening brace deleted, declaration colon replaced by a blank (line of the first value token checked), character of no token inserted in a gap (line checked), value replaced by an undefined variable (also against the evaluator model and the reference semantics); the command line must print a diagnostic; the verdict of the model pipeline (Lex + reference parser) on a sample of the corrupted texts vs the real compiler; raw/filtered token streams with lines model vs real lexer.',
+   note='PARTIAL (category other): on the real side unbalanced braces, open strings, missing braces and colons are detected by the LALR parser of PLY, which is not modelled (the theorems are about the reference parser coq/Model/Parse.v); they are decided by the corruption sweep on the real parser, where the reference parser has to give the same verdict. The command line keeps going after a syntax error and also prints the CSS of the remaining rules; the property only asks for the diagnostic there. Trusted: Coq kernel; lexer and evaluator hand models; the line oracle 1 + count of LF before the offending token.',
    design='3/C15')
 
 CHECKS['C18'] = dict(
